@@ -54,17 +54,17 @@ Lemma consumer_no_lost_wakeup_l c s :
   reachable c s ->
   (0 < ccount false (cons s) -> Z.of_nat (length (items s)) <= ccount true (cons s)) /\
   (stopped s = true -> ccount false (cons s) = 0) /\
-  (forall k, cfind k (cons s) = Some true -> lock s = Free ->
+  (forall k, cfind k (cons s) = Some true ->
      exists s' z, step c s (LCWake k) = Some (s', z) /\ mu s' < mu s \/ stopped s = true) /\
   (forall s' z, step c s LShutdown = Some (s', z) -> ccount false (cons s') = 0).
 Proof.
   intros R. destruct (reach_consinv _ _ R) as [C1 C2]. split; [exact C1|]. split; [exact C2|]. split.
-  - intros k Hk L. destruct (stopped s) eqn:St; [exists s, 0; right; reflexivity|].
+  - intros k Hk. destruct (stopped s) eqn:St; [exists s, 0; right; reflexivity|].
     assert (E : exists r, step c s (LCWake k) = Some r).
-    { unfold step, lock_free. rewrite L, Hk. eauto. }
+    { unfold step. rewrite Hk. eauto. }
     destruct E as [[s1 z] E]. exists s1, z. left. split; [exact E|].
     exact (mu_decreases c s (LCWake k) s1 z (reach_nofault _ c s (fun l H => H) R) (reach_tokinv _ _ _ R) St eq_refl E).
-  - intros s' z H. unfold step in H. destruct (lock_free s); [|discriminate]. inversion H; subst. ss.
+  - intros s' z H. unfold step in H. inversion H; subst. ss.
     apply ccount_wakeall.
 Qed.
 
@@ -84,7 +84,7 @@ Lemma pq_resync_on_empty_l c k s s' z :
   size s' = 0 /\ (0 < waiting s -> tok s' = true).
 Proof.
   intros K St H NE E. revert K St NE E. revert H.
-  unfold cread, cread_faulty, park, read, handoff, signal, deliver.
+  unfold cread, cread_faulty, park, read, handoff, signal.
   repeat (dmatch; try (intros; discriminate)).
   all: intros H; inversion H; subst; clear H; ss; intros K St NE E; try discriminate; try congruence;
        try (split; [reflexivity|intros; try reflexivity; lia]).
@@ -94,11 +94,11 @@ Qed.
 (* ---- a refused Offer changes nothing — also when the cause is a marshal error or a storage-write error ---- *)
 Lemma faulty_offer_changes_nothing_l c s p sz k s' z :
   step c s (LOfferF p sz k) = Some (s', z) -> (blocking c = true -> sz <= cap c) ->
-  kind c = Pers /\ lock s = Free /\
+  kind c = Pers /\
   (size s + sz <= cap c ->
-     z = k /\ s' = signal PendNone (setp p (PRet (RErr k)) s) /\
+     z = k /\ s' = signal (setp p (PRet (RErr k)) s) /\
      (waiting s = 0 -> s' = setp p (PRet (RErr k)) s) /\
-     (0 < waiting s -> waiting s' = waiting s - 1 /\ tok s' = true)) /\
+     (0 < waiting s -> waiting s' = waiting s - 1 /\ sigs s' = sigs s + 1 /\ tok s' = true)) /\
   (size s + sz > cap c -> blocking c = false -> z = c_full /\ s' = setp p (PRet RFull) s) /\
   (size s + sz > cap c -> blocking c = true ->
      z = c_blocked /\ pget p (prods s') = Some (PInSelect sz) /\ waiting s' = waiting s + 1 /\
@@ -106,36 +106,39 @@ Lemma faulty_offer_changes_nothing_l c s p sz k s' z :
   size s' = size s /\ items s' = items s /\ inflight s' = inflight s /\ acc s' = acc s /\ hand s' = hand s /\
   cons s' = cons s /\ held s' = held s /\ pool s' = pool s.
 Proof.
-  intros H NO. revert H. unfold step, lock_free.
-  destruct (lock s) eqn:L; try discriminate.
+  intros H NO. revert H. unfold step.
   destruct (pget p (prods s)) eqn:Hp; try discriminate.
   destruct (kind c) eqn:K; try discriminate.
   destruct (blocking c && (sz >? cap c)) eqn:OV; [exfalso; destruct (blocking c); [specialize (NO eq_refl); simpl in OV; lia|discriminate]|].
   destruct (size s + sz >? cap c) eqn:F.
   - destruct (blocking c) eqn:B; intros H; inversion H; subst; ss; rewrite ?pget_pset_eq;
       repeat split; intros; try reflexivity; try lia; try discriminate.
-  - intros H. inversion H; subst. unfold signal, deliver.
+  - intros H. inversion H; subst. unfold signal.
     destruct (waiting (setp p (PRet (RErr z)) s) =? 0) eqn:W; ss;
-      [|destruct (tok s) eqn:T; ss];
       repeat split; intros; try reflexivity; try lia; try discriminate; auto.
 Qed.
 
-(* the repaired error path of a PARKED producer: past the capacity loop it returns its error and passes the wake-up on *)
+(* the error path of a PARKED producer: woken with a wake-up to take, past the capacity loop, it returns its error
+   and passes the wake-up on *)
 Lemma faulty_waiter_passes_wakeup_l c s p sz k s' z :
-  pget p (prods s) = Some (PLeftTok sz) -> find_id p (faulty s) = Some k -> size s + sz <= cap c ->
+  pget p (prods s) = Some (PLeftTok sz) -> find_id p (faulty s) = Some k -> 0 < sigs s -> size s + sz <= cap c ->
   step c s (LRelockTok p) = Some (s', z) ->
-  z = k /\ s' = signal PendNone (setp p (PRet (RErr k)) s) /\
-  pget p (prods s') = Some (PRet (RErr k)) /\
+  z = k /\ pget p (prods s') = Some (PRet (RErr k)) /\
   size s' = size s /\ items s' = items s /\ acc s' = acc s /\
-  (waiting s = 0 -> waiting s' = 0 /\ tok s' = tok s /\ lock s' = Free) /\
-  (0 < waiting s -> waiting s' = waiting s - 1 /\ tok s' = true).
+  (waiting s = 0 -> waiting s' = 0 /\ sigs s' = sigs s - 1) /\
+  (0 < waiting s -> waiting s' = waiting s - 1 /\ sigs s' = sigs s /\ tok s' = true).
 Proof.
-  intros Hp Hf Fit H. revert H. unfold step, lock_free.
-  destruct (lock s) eqn:L; try discriminate. rewrite Hp, Hf.
-  destruct (size s + sz >? cap c) eqn:F; [lia|].
-  intros H. inversion H; subst. unfold signal, deliver.
-  destruct (waiting (setp p (PRet (RErr z)) s) =? 0) eqn:W; ss;
-    [|destruct (tok s) eqn:T; ss]; rewrite ?pget_pset_eq;
+  intros Hp Hf G Fit H. revert H. unfold step. rewrite Hp.
+  destruct (0 <? sigs s) eqn:E; [|lia]. ss.
+  assert (F1 : find_id p (faulty (if 0 <? sigs s - 1 then set_tok true (set_sigs (sigs s - 1) s) else set_sigs (sigs s - 1) s)) = Some k)
+    by (destruct (0 <? sigs s - 1); ss; exact Hf).
+  rewrite F1.
+  assert (S1 : size (if 0 <? sigs s - 1 then set_tok true (set_sigs (sigs s - 1) s) else set_sigs (sigs s - 1) s) = size s)
+    by (destruct (0 <? sigs s - 1); reflexivity).
+  rewrite S1. destruct (size s + sz >? cap c) eqn:F; [lia|].
+  intros H. inversion H; subst. unfold signal.
+  destruct (0 <? sigs s - 1) eqn:E2; ss;
+    (destruct (waiting s =? 0) eqn:W; ss); rewrite ?pget_pset_eq;
     repeat split; intros; try reflexivity; try lia; try discriminate; auto.
 Qed.
 
@@ -146,24 +149,23 @@ Lemma oversized_offer_refused_l c s p sz s' z :
   (step c s (LOffer p sz) = Some (s', z) \/ exists k, step c s (LOfferF p sz k) = Some (s', z)) ->
   z = c_toolarge /\ s' = setp p (PRet RTooLarge) s.
 Proof.
-  intros K B O [H|[k H]]; revert H; unfold step, lock_free, offer; rewrite K, B;
-    destruct (lock s); try discriminate; destruct (pget p (prods s)); try discriminate;
+  intros K B O [H|[k H]]; revert H; unfold step, offer; rewrite K, B;
+    destruct (pget p (prods s)); try discriminate;
     (destruct (sz >? cap c) eqn:E; [|lia]); simpl; intros H; inversion H; auto.
 Qed.
 
-(* every accepted request HAS BEEN handed over and finished once the queue's own activity has come to rest with the
-   mutex free (i.e. outside the F3 deadlock) *)
+(* every accepted request HAS BEEN handed over and finished once the queue's own activity has come to rest *)
 Lemma accepted_handed_and_finished_at_quiescence_l c s :
-  0 <= cap c -> reachable c s -> quiescent c s -> lock s = Free ->
+  0 <= cap c -> reachable c s -> quiescent c s ->
   hand s = acc s /\ items s = [] /\ inflight s = [] /\ size s = 0 /\
   (forall id, In id (acc s) -> In id (map fst (fin s))) /\ all_returned s.
 Proof.
-  intros Hc R Q L.
-  destruct (quiescent_facts _ _ Q L) as (Q1 & Q2 & _).
+  intros Hc R Q.
+  destruct (quiescent_facts _ _ Q) as (Q1 & Q2 & _).
   pose proof (handoff_complete_l _ _ Hc R Q1) as HA.
   destruct (pq_size_bounds_l _ _ Hc R) as (_ & _ & Z0).
   destruct (handoff_exactly_once_l _ _ Hc R) as (_ & _ & _ & _ & _ & _ & _ & _ & HF & _).
   split; [exact HA|]. split; [exact Q1|]. split; [exact Q2|]. split; [auto|]. split.
   - intros id I. rewrite <- HA in I. destruct (HF _ I) as [X|X]; [exact X|]. rewrite Q2 in X. contradiction.
-  - apply (no_lost_wakeup_partial_l _ _ Hc R Q L).
+  - apply (no_lost_wakeup_l c Hc s R Q).
 Qed.
